@@ -322,7 +322,9 @@ def gen_misuse(rng, models, state, only=None, first=None):
                 if a_rv:
                     return [dict(mk, op='expr', id='bad', e=['concat', ['v', pa + rng.choice(a_dv)], ['v', pa + rng.choice(a_rv)]], touch=[pa])]
             if kind == 'cross_maxof' and a_dv and b_dv and A['kind'] in ('ro', 'dro') and B['kind'] in ('ro', 'dro'):
-                ea, eb = ['sum', ['v', pa + rng.choice(a_dv)]], ['sum', ['v', pb + rng.choice(b_dv)]]
+                # the foreign piece is, more often than not, the other model's decision rule / adaptive decision (bi-affine piece)
+                bn = 'y' if ('y' in b_dv and rng.random() < 0.6) else rng.choice(b_dv)
+                ea, eb = ['sum', ['v', pa + rng.choice(a_dv)]], ['sum', ['v', pb + bn]]
                 pieces = [ea, eb] if rng.random() < 0.5 else [ea, ['c', 0.0], eb]
                 return [dict(mk, op='expr', id='bad', e=[rng.choice(['maxof', 'minof'])] + pieces)]
             if kind == 'cross_matmul_rvar' and a_dv and b_rv and A['kind'] in ('ro', 'dro'):
